@@ -116,7 +116,13 @@ pub fn run(ctx: &Ctx) -> Outcome {
             // English has its own whitespace-sensitive pass: give it a double share
             let code = if i % 4 == 0 { "en" } else { LANGS[(i % 7) as usize] };
             let lex = ls.lexicon(code);
-            let s = if code == "en" && i % 8 == 0 { crate::gen::annot_en(&mut rng, lex, false) } else { workload_text(&mut rng, lex, 10) };
+            let mut s = if code == "en" && i % 8 == 0 { crate::gen::annot_en(&mut rng, lex, false) } else { workload_text(&mut rng, lex, 10) };
+            if i % 512 == 5 {
+                // the same short text at the end of a 10-30 KB document
+                let words = 1500 + rng.usize(2500);
+                s = format!("{}{}", crate::gen::long_filler_prefix(&mut rng, lex, words), s);
+                rep.count("long_documents");
+            }
             let (w, runs, shift) = substitute(&mut rng, &s);
             crate::core::set_current(code, "find_numbers / replace_numbers_in_text / text2digits", &w);
             let (n_occ, fail) = check(&ls, code, &s, &w, shift);
